@@ -293,7 +293,11 @@ def evaluate(cases, res):
         elif t == "eq":
             fa, fb = case["a"], case["b"]
             a, b = build_frame(fa), build_frame(fb)
-            o = dict(fresh=(a == b, a != b, b == a, a == a and not (a != a)))
+            try:
+                o = dict(fresh=(a == b, a != b, b == a, a == a and not (a != a)))
+            except Exception as e:  # noqa: BLE001 -- comparing two frames must not raise
+                impl[ci] = dict(eq_err=type(e).__name__)
+                continue
             if case["opsa"] or case["opsb"]:
                 try:
                     apply_ops(a, case["opsa"])
@@ -307,10 +311,13 @@ def evaluate(cases, res):
             cls = fi.frame_class(code)
             a = cls(recipient=fi.addr(69), data=c02.req_data(dict(name=case["name"], args=case["args"])))
             b = cls(recipient=fi.addr(69), data=c02.req_data(dict(name=case["name"], args=case["args2"])))
-            o = dict(fresh=(a == b, a != b, b == a, a == a))
-            apply_ops(a, case["opsa"])
-            apply_ops(b, case["opsb"])
-            o["filled"] = (a == b, a != b, b == a)
+            try:
+                o = dict(fresh=(a == b, a != b, b == a, a == a))
+                apply_ops(a, case["opsa"])
+                apply_ops(b, case["opsb"])
+                o["filled"] = (a == b, a != b, b == a)
+            except Exception as e:  # noqa: BLE001
+                o = dict(eq_err=type(e).__name__)
             impl[ci] = o
             ask(ci, "ma", c02.model_line(dict(t="req", name=case["name"], args=case["args"])))
             ask(ci, "mb", c02.model_line(dict(t="req", name=case["name"], args=case["args2"])))
@@ -514,6 +521,9 @@ def substantive(case):
 
 
 def compare_eq(pub, case, o, eqans, ci, res):
+    if "eq_err" in o:
+        res.fail("spec", pub, "== / != give an answer", dict(raised=o["eq_err"]), "comparing two frames raised an exception")
+        return
     same_args = (case["diff"] == "none")
     subst = substantive(case)
     fresh = o["fresh"]
